@@ -407,7 +407,52 @@ def setup_case(tool, doc, ext, stale, extra, tmp, link=False):
     return d, target, argv, doc.encode()
 
 
+def noop_backup_cases(res, tmp):
+    """--backup on a successful run whose edit leaves the bytes as they were
+    (a value set to itself): the .bak must still be the pre-image, also when
+    a stale .bak from an earlier run is lying about."""
+    for doc, ext, key, val in (("a: 1\nb: x\n", ".yaml", "/a", "1"),
+                               ("a: 1\nb: x\n", ".yaml", "/b", "x"),
+                               ("- p\n- q\n", ".yaml", "/[1]", "q"),
+                               ('{"a": "v"}', ".json", "/a", "v")):
+        for stale in (False, True):
+            d, target, argv, original = setup_case(
+                "yaml-set", doc, ext, stale,
+                ["--change", key, "--value", val, "--backup"], tmp)
+            case = {"tool": "yaml-set", "doc": doc, "ext": ext,
+                    "stale_bak": stale, "noop_edit": [key, val]}
+            res.evaluations += 1
+            try:
+                out = run_tool("yaml-set", argv, Injector())
+            except CaseTimeout:
+                res.fail({"clause": "terminates", "tool": "yaml-set"}, case,
+                         "")
+                continue
+            if out.exc is not None or out.code != 0:
+                res.fail({"clause": "base-case-succeeds", "tool": "yaml-set",
+                          "edit": "no-op"}, case,
+                         "exit %r exc %r stderr %r" % (out.code, out.exc,
+                                                       out.err[:300]))
+            else:
+                bak = target + ".bak"
+                if not (os.path.exists(bak)
+                        and open(bak, "rb").read() == original):
+                    res.fail({"clause": "completed-run-leaves-identical-"
+                              "backup", "tool": "yaml-set", "edit": "no-op"},
+                             case, ".bak %s" % (
+                                 "missing" if not os.path.exists(bak)
+                                 else "differs from the pre-image"))
+                else:
+                    res.nontrivial()
+                    res.label("noop-edit-backup:%s" % (
+                        "same-bytes" if open(target, "rb").read() == original
+                        else "reformatted"))
+            shutil.rmtree(d, ignore_errors=True)
+
+
 def fault_cases(res, tmp, part, parts, dl):
+    if part == 0:
+        noop_backup_cases(res, tmp)
     n = 0
     for tool, doc, ext, stale, extra, link in base_cases():
         n += 1
